@@ -20,6 +20,33 @@
 #include <pistache/transport.h>
 #include <pistache/utils.h>
 
+#ifdef PISTACHE_VERIF_HOOKS
+// Route the socket calls of this file through the verification hooks (see
+// verif_hooks.h). Must come after every #include.
+#include <pistache/verif_hooks.h>
+namespace
+{
+    inline ssize_t pistache_verif_send(int fd, const void* buf, size_t len, int flags)
+    {
+        auto hook = Pistache::VerifHooks::sendFn.load(std::memory_order_relaxed);
+        return hook ? hook(fd, buf, len, flags) : ::send(fd, buf, len, flags);
+    }
+    inline ssize_t pistache_verif_sendfile(int out_fd, int in_fd, off_t* offset, size_t count)
+    {
+        auto hook = Pistache::VerifHooks::sendfileFn.load(std::memory_order_relaxed);
+        return hook ? hook(out_fd, in_fd, offset, count) : ::sendfile(out_fd, in_fd, offset, count);
+    }
+    inline ssize_t pistache_verif_recv(int fd, void* buf, size_t len, int flags)
+    {
+        auto hook = Pistache::VerifHooks::recvFn.load(std::memory_order_relaxed);
+        return hook ? hook(fd, buf, len, flags) : ::recv(fd, buf, len, flags);
+    }
+} // namespace
+#define send pistache_verif_send
+#define sendfile pistache_verif_sendfile
+#define recv pistache_verif_recv
+#endif
+
 namespace Pistache::Tcp
 {
     using namespace Polling;
